@@ -81,6 +81,14 @@ class Run:
     def step_mutate(self, i, op):
         """a WBS edit between two calcs: the following calcs are judged against the edited scenario"""
         w = self.w
+        m = op['m']
+        if m['kind'] == 'cal_set_units' and m.get('from_rows') is not None:
+            # aim the edit at a day the previous schedule really used (k-th distinct work day of that resource)
+            last = max([j for j in self.views if self.views[j] is not None], default=None)
+            days = sorted({r[1] for r in self.views[last]['rows'] if r[0] == m['res']}) if last is not None else []
+            if days:
+                m = dict(m, date=days[m['from_rows'] % len(days)])
+                op = dict(op, m=m)
         ok = w.mutate(op['m'])
         self.log.add('mutate', i, op['m'], ok)
         if not ok:
